@@ -391,6 +391,21 @@ fn check_stdout_run(stdout: &str, words: &[String], res: &[String], cmp: &Option
                     return Err(format!("comparison line {i}: got {l:?}, expected `{cw} | {r}`"));
                 }
             }
+            // the listing must still show every result when the comparison file is shorter
+            // (and every expected word when it is longer)
+            let n = c.len().min(res.len());
+            for (k, r) in res.iter().enumerate().skip(n) {
+                let Some(l) = body.get(k) else { return Err(format!("result {k} ({r:?}) is missing from the comparison listing")) };
+                if !l.trim_end().ends_with(&format!("| {r}").trim_end().to_string()) {
+                    return Err(format!("comparison line {k}: got {l:?}, expected `| {r}`"));
+                }
+            }
+            for (k, cw) in c.iter().enumerate().skip(n) {
+                let Some(l) = body.get(k) else { return Err(format!("expected word {k} ({cw:?}) is missing from the comparison listing")) };
+                if !l.starts_with(cw.as_str()) {
+                    return Err(format!("comparison line {k}: got {l:?}, expected `{cw} |`"));
+                }
+            }
             Ok(())
         }
     }
